@@ -712,7 +712,7 @@ PROPS = {
              " How a refusal is reported (suite c10real, shared with C10): CONNECT, and plain-HTTP GET / POST whose authority spells the port out or leaves it out, to 19 literals and 9 scripted names x both policies x IPv6 on/off through the real direct forwarder: status, X-Warning code and X-Adguard-Vpn-Error (which must name the request's authority) against the C03 decision carried through the generated tables"
              " Canaries also sit second in the answer of names whose first address is global but unreachable ([ff0e::1234], 8.8.8.8, 2606:4700:4700::1111): the failed attempt is not followed by an unchecked one"
              " The two policy switches as a settings file gives them (written out both ways, and left out: the documented defaults are private networks disallowed, IPv6 available) x every pool address through the real forwarder",
-        explanation="theorems v4_exact, v6_unicast_exact, v6_mapped_exact, connect_only_global, global_*_never_refused about "
+        explanation="theorems v4_exact, v6_unicast_exact, v6_mapped_exact, connect_only_global, host_without_global_answer_refused, no_answer_no_connection, answers_after_first_suitable_irrelevant, global_*_never_refused about "
                     "TT/Model/Ip.lean; model tied to lib/src/net_utils.rs + tcp_forwarder.rs by exhaustive/differential runs",
         trusted=["std::net::Ipv4Addr/Ipv6Addr predicates as transcribed (tied by the exhaustive sweep)",
                  "resolver answers are an input of the model (system resolver not modelled)"],
